@@ -17,5 +17,22 @@ let dispatch = function
                   let rp = next_list next_nat in let st = next_list next_nat in
                   p_pair p_nat (p_mat p_z) (run_degfixed inv outv rp st)
   | "template" -> let mx = next_nat () in p_mat p_z (run_template mx)
+  (* ---- Model/GeneratorsExt.v ---- *)
+  | "toeplitz_pf" -> let n = next_nat () in let k = next_z () in let pf = next_list next_q in let q = next_q () in
+                     let st = next_list (fun () -> next_mat next_q) in
+                     p_pair p_nat (p_pair p_z (p_mat p_z)) (run_toeplitz_pf n k pf q st)
+  | "toep_template" -> let n = next_nat () in let k = next_z () in let pf = next_list next_q in
+                       p_mat p_q (run_toep_template n k pf)
+  | "rand_dir_z" -> let n = next_nat () in let k = next_z () in let rp = next_list next_nat in
+                    p_mat p_z (run_rand_dir_z n k rp)
+  | "rand_und_z" -> let n = next_nat () in let k = next_z () in let rp = next_list next_nat in
+                    p_mat p_z (run_rand_und_z n k rp)
+  | "ring_z" -> let n = next_nat () in let k = next_z () in let rp = next_list next_nat in
+                p_opt (p_mat p_z) (run_ring_z n k rp)
+  | "even_z" -> let n = next_nat () in let k = next_z () in let sz = next_z () in let rp = next_list next_nat in
+                p_opt (p_mat p_z) (run_even_z n k sz rp)
+  | "degfixed_chk" -> let inv = next_list next_nat in let outv = next_list next_nat in
+                      let rp = next_list next_nat in let st = next_list next_nat in
+                      p_pair p_nat (p_mat p_z) (run_degfixed_chk inv outv rp st)
   | f -> failwith ("unknown function " ^ f)
 let () = main dispatch
